@@ -50,7 +50,8 @@ class DiskObserver(SearchRecorder):
 
     def register(self, tracker, individual, problem, is_best):
         exp = self.expect_fn(individual, problem)
-        agg = int(individual.get_fitness(problem).maximizing_aggregate)
+        a0 = float(individual.get_fitness(problem).maximizing_aggregate)
+        agg = -10 ** 9 if a0 == float("-inf") else 10 ** 9 if a0 == float("inf") else int(a0)
         prev = list(self.aggs)
         self.aggs.append(agg)
         if self.sidelog is not None:
@@ -64,14 +65,39 @@ class DiskObserver(SearchRecorder):
                             "agg": agg, "prev": prev})
 
 
-def build(path, nobj, mode, onlybest, nextra, via, events, sidelog=None):
-    """returns (tracker, cfg); mode: 'default' columns or 'custom' fields"""
-    comps_of = lambda ph: [float(prog_value(ph.prog) + 10 * k) for k in range(nobj)]  # distinct per component
+def build(path, nobj, mode, onlybest, nextra, via, events, sidelog=None, collide=False, inf=False):
+    """returns (tracker, cfg); mode: 'default' columns or 'custom' fields.
+    collide: the last extra field carries the NAME of a column that is configured already (it replaces that column in place);
+    inf: the fitness is infinitely bad (-inf, the problem maximises) for some programs"""
+    def comps_of(ph):
+        v = prog_value(ph.prog)
+        if inf and nobj == 1 and v % 3 != 1:
+            return [float("-inf")]
+        return [float(v + 10 * k) for k in range(nobj)]  # distinct per component
     if nobj == 1:
         problem = SingleObjectiveProblem(lambda ph: comps_of(ph)[0], minimize=False)
     else:
         problem = MultiObjectiveProblem([False] * nobj, lambda ph: comps_of(ph))
     extras = [("Tag", tag1), ("Tag2", tag2)][:nextra]
+    dup = ""
+    if collide:
+        dup = "Prog" if (via != "simplegp" and mode == "custom") else "Phenotype"
+        extras = extras[:-1] + [(dup, tag2)] if extras else [(dup, tag2)]
+        nextra = len(extras)
+
+    def merged(header, kinds, cells):
+        """header / kinds / cells after the in-place override of the colliding column (dict semantics of the configured fields)"""
+        if not collide:
+            return header, kinds, cells
+        keep = [i for i, h in enumerate(header[:-1]) if True]
+        pos = header.index(dup)
+        h2, k2 = header[:-1], kinds[:-1]
+        k2 = k2[:pos] + ["extra"] + k2[pos + 1:]
+        if cells is None:
+            return h2, k2, None
+        c2 = cells[:-1]
+        c2 = c2[:pos] + [cells[-1]] + c2[pos + 1:]
+        return h2, k2, c2
     if via == "simplegp":
         from geml.simplegp import SimpleGP
         tracker = SimpleGP.build_recorder(None, problem, path, onlybest, False, {n: f for n, f in extras} or None)
@@ -107,16 +133,21 @@ def build(path, nobj, mode, onlybest, nextra, via, events, sidelog=None):
                     [str(f(ind.get_phenotype())) for _, f in extras]
         T = SingleObjectiveProgressTracker if nobj == 1 else MultiObjectiveProgressTracker
         tracker = T(problem, SequentialEvaluator(), recorders=[rec])
+    header0, kinds0, expect0 = header, kinds, expect
+    header, kinds, _ = merged(header0, kinds0, None)
+
+    def expect(ind, prob):
+        return merged(header0, kinds0, expect0(ind, prob))[2]
     tracker.recorders.append(DiskObserver(events, path, expect, sidelog))
     cfg = {"k": "csv", "header": header, "kinds": kinds, "onlybest": bool(onlybest), "nobj": nobj, "nextra": nextra,
            "via": via + ("" if via == "simplegp" else "/" + mode)}
     return tracker, cfg
 
 
-def session(R, workdir, idx, nobj, mode, onlybest, nextra, via, nreg):
+def session(R, workdir, idx, nobj, mode, onlybest, nextra, via, nreg, collide=False, inf=False):
     path = os.path.join(workdir, f"log_{idx}.csv")
     events = []
-    tracker, cfg = build(path, nobj, mode, onlybest, nextra, via, events)
+    tracker, cfg = build(path, nobj, mode, onlybest, nextra, via, events, collide=collide, inf=inf)
     rows, partial = read_disk(path)
     events.insert(0, {"e": "created", "disk": rows, "partial": partial})
     rs = NativeRandomSource(R.randint(0, 10 ** 6))
@@ -224,6 +255,14 @@ def main():
                         batch.trace(f"csv/{idx}/{cfg['via']}/{nobj}obj/{nextra}extra/{'best' if onlybest else 'all'}", ev, cfg)
                         nev += len(ev)
                         idx += 1
+    # an extra field named like a configured column; fitness that is infinitely bad for most programs (first rows!)
+    for via, mode in (("direct", "default"), ("direct", "custom"), ("simplegp", "default")):
+        for onlybest in (True, False):
+            for (nextra, collide, inf) in ((1, True, False), (2, True, False), (0, False, True), (1, True, True)):
+                ev, cfg = session(R, work, idx, 1, mode, onlybest, nextra, via, R.randint(4, 12), collide=collide, inf=inf)
+                batch.trace(f"csv/{idx}/{cfg['via']}/special/{nextra}{int(collide)}{int(inf)}/{'best' if onlybest else 'all'}", ev, cfg)
+                nev += len(ev)
+                idx += 1
     nkill = 6 if quick else 200
     for k in range(nkill):
         ev, cfg = kill_run(R, work, k, R.choice([1, 2]), R.choice(["default", "custom"]), R.random() < 0.5,
